@@ -2,7 +2,7 @@
 From Coq Require Import String List Arith Bool.
 From PV Require Import PyLib Multi.
 From PVGen Require Import GenHyper GenMulti.
-From PVBridge Require Import MultiBridge.
+From PVBridge Require Import MultiBridge MultiExample.
 
 (* the methods of Multitask that the model describes still have exactly the modelled shape (branch order included) *)
 Theorem C20_regenerated : gen_multitask_shape = true.
@@ -68,3 +68,18 @@ Print Assumptions C20_plan_complete.
 Theorem C20_no_shared_mutable_state : gen_no_shared_mutable_state = true.
 Proof. reflexivity. Qed.
 Print Assumptions C20_no_shared_mutable_state.
+
+(* non-vacuity: for n = 2 algorithms and m = 3 tasks every documented shape of `modes` (one value, per algorithm, per task, per pair, None) passes the REGENERATED
+   __check_input__ and __check_modes__ (the premises of the theorems above), the REGENERATED __get_mode__ designates the entry the theorems name; a length-4 tuple, a
+   non-tuple and an unknown mode are rejected; the side conditions on n, m hold; the plan has n*m*k entries *)
+Theorem C20_hypotheses_satisfiable :
+  mu_table (Some (2 :: nil)) true = Some ((Some 2 :: Some 2 :: Some 2 :: nil) :: (Some 2 :: Some 2 :: Some 2 :: nil) :: nil) /\
+  mu_table (Some (1 :: 2 :: nil)) true = Some ((Some 1 :: Some 1 :: Some 1 :: nil) :: (Some 2 :: Some 2 :: Some 2 :: nil) :: nil) /\
+  mu_table (Some (1 :: 2 :: 0 :: nil)) true = Some ((Some 1 :: Some 2 :: Some 0 :: nil) :: (Some 1 :: Some 2 :: Some 0 :: nil) :: nil) /\
+  mu_table (Some (1 :: 2 :: 0 :: 0 :: 2 :: 1 :: nil)) true = Some ((Some 1 :: Some 2 :: Some 0 :: nil) :: (Some 0 :: Some 2 :: Some 1 :: nil) :: nil) /\
+  mu_table None false = Some ((Some 0 :: Some 0 :: Some 0 :: nil) :: (Some 0 :: Some 0 :: Some 0 :: nil) :: nil) /\
+  mu_table (Some (1 :: 2 :: 0 :: 0 :: nil)) true = None /\ mu_table (Some (1 :: 2 :: nil)) false = None /\ mu_table (Some (1 :: 7 :: nil)) true = None /\
+  (2 <> 1 /\ 3 <> 1 /\ 3 <> 2 /\ 2 * 3 <> 1 /\ 2 * 3 <> 2 /\ 2 * 3 <> 3) /\
+  length (plan nat 0 (Some ((1 :: 1 :: 1 :: nil) :: (2 :: 2 :: 2 :: nil) :: nil)) 2 3 4) = 2 * 3 * 4.
+Proof. exact multi_hypotheses_satisfiable. Qed.
+Print Assumptions C20_hypotheses_satisfiable.
